@@ -63,7 +63,8 @@ def kernelTable : List (String × Secp.IR.Kernel) := [
   ("Scalar_PutBytesUnchecked", Secp.Gen.Scalar_PutBytesUnchecked), ("Scalar_IsOdd", Secp.Gen.Scalar_IsOdd),
   ("Scalar_Equals", Secp.Gen.Scalar_Equals), ("Scalar_Add2", Secp.Gen.Scalar_Add2), ("Scalar_reduce385", Secp.Gen.Scalar_reduce385),
   ("Scalar_reduce512", Secp.Gen.Scalar_reduce512), ("Scalar_Mul2", Secp.Gen.Scalar_Mul2), ("Scalar_NegateVal", Secp.Gen.Scalar_NegateVal),
-  ("Scalar_IsOverHalfOrder", Secp.Gen.Scalar_IsOverHalfOrder)]
+  ("Scalar_IsOverHalfOrder", Secp.Gen.Scalar_IsOverHalfOrder),
+  ("Scalar_mul512Rsh320Round", Secp.Gen.Scalar_mul512Rsh320Round)]
 
 /-- value of 26-bit limbs / 32-bit words (least significant first), big-endian bytes -/
 def limbsVal (w : Nat) : List Nat → Nat
@@ -131,6 +132,9 @@ def kernSpec (name : String) (ins outs : List Nat) : Option String :=
   | "Scalar_reduce385" =>
     let v := limbsVal 32 (ins.drop 8)
     if v < 2 ^ 385 then some (showNats (scalarWords (v % N))) else none
+  | "Scalar_mul512Rsh320Round" =>
+    let x := limbsVal 32 (ins.take 8); let y := limbsVal 32 ((ins.drop 8).take 8)
+    some (showNats (scalarWords ((x * y + 2 ^ 319) / 2 ^ 320 % 2 ^ 256)))
   | "Scalar_reduce256" =>
     let o := ins.getD 8 0
     if o ≤ 1 then some (showNats (scalarWords ((limbsVal 32 (ins.take 8) + o * (2 ^ 256 - N)) % 2 ^ 256))) else none
